@@ -178,7 +178,7 @@ impl FrameDecoder {
             let body = old(src)@.skip(4);
             &&& perf_of(body) is Transfer
             &&& r->Ok_0->Some_0.body->Transfer_performative == perf_of(body)->Transfer_0
-            &&& r->Ok_0->Some_0.body->Transfer_payload@ =~= body.skip(perf_len(body))       // [C20.frame.payload-untouched] the payload is exactly the bytes that follow the performative [C06.decode.payload]
+            &&& r->Ok_0->Some_0.body->Transfer_payload@ =~= body.skip(perf_len(body))       // [C04.frame.payload-untouched] [C20.frame.payload-untouched] the payload is exactly the bytes that follow the performative [C06.decode.payload]
         }),
 //@@ entry
         let ghost s0 = src@;
